@@ -46,9 +46,16 @@ def judge(params, ex, res):
         if bad:
             fails.append((base + "|status", f"steps not terminated after failed run: {bad}"))
     # every output port of every step ends with a termination token
-    noterm = [p for p, dump in res["ports"].items() if not dump or dump[-1][0] != "TerminationToken"]
+    # every output port of every step carries a termination token (the statement does not forbid a step that was
+    # terminated by executor.close() from still emitting a late data token behind it -- first version of this oracle
+    # demanded "termination is the LAST token" and raised a false alarm on twobranch + failed schedule)
+    noterm = [p for p, dump in res["ports"].items() if not any(t[0] == "TerminationToken" for t in dump)]
     if noterm:
-        fails.append((base + "|noterm", f"output ports without final TerminationToken: {noterm}"))
+        fails.append((base + "|noterm", f"output ports without any TerminationToken: {noterm}"))
+    if not injected:
+        late = [p for p, dump in res["ports"].items() if dump and dump[-1][0] != "TerminationToken"]
+        if late:
+            fails.append((base + "|data-after-termination", f"fault-free run: ports whose last token is not the termination: {late}"))
     pend = res.get("pending_after_run") or []
     if pend:
         # a step's run() (or anything it awaits) still pending at quiescence = a step left waiting
